@@ -671,7 +671,55 @@ pub async fn run_pagination_one(rep: &mut Report, sub_seed: u64) {
 
 /// `n` scenarios on `threads` OS threads, each scenario on its own multi-thread runtime (dropped
 /// afterwards, which ends the HTTP server and the listeners of that scenario).
+/// Delay injection at the hooks of the proxy's routing path (`send_cmd_ctx`: the migration map is
+/// consulted, then the cluster map). With some probability the calling worker thread stalls between
+/// the two decisions for tens of milliseconds while the other workers carry the migration through
+/// its handshake - the preemption a loaded production machine produces and a test never does.
+/// Mode 1 (default): only commands that the migration map has just handed to a *migrating task*
+/// are stalled (the task's blocking-term hint is what protects them). Mode 2 (a few scenarios):
+/// every command may be stalled, also those that were routed with the metadata of before the
+/// migration - this reproduces the known finding of DESIGN.md section 4.
+static STALL_MODE: AtomicU64 = AtomicU64::new(0);
+static STALLS_INJECTED: AtomicU64 = AtomicU64::new(0);
+
+fn install_stalls(seed: u64) {
+    static STATE: AtomicU64 = AtomicU64::new(0x9e3779b97f4a7c15);
+    thread_local! {
+        static SEEN_MIGRATING_TASK: std::cell::Cell<bool> = std::cell::Cell::new(false);
+    }
+    STATE.store(seed | 1, Ordering::SeqCst);
+    undermoon::common::verif::set_callback(Some(Arc::new(|name: &'static str| {
+        if name == "migration-map:command-for-a-migrating-slot" {
+            SEEN_MIGRATING_TASK.with(|c| c.set(true));
+            return;
+        }
+        if name != "manager:between-migration-map-and-cluster-map" {
+            return;
+        }
+        let admitted_by_migrating_task = SEEN_MIGRATING_TASK.with(|c| c.replace(false));
+        let mode = STALL_MODE.load(Ordering::Relaxed);
+        if mode == 0 || (mode == 1 && !admitted_by_migrating_task) {
+            return;
+        }
+        // xorshift on a shared word: any interleaving of updates is as good as any other
+        let mut x = STATE.load(Ordering::Relaxed);
+        x ^= x << 13;
+        x ^= x >> 7;
+        x ^= x << 17;
+        STATE.store(x, Ordering::Relaxed);
+        if x % 3 == 0 {
+            STALLS_INJECTED.fetch_add(1, Ordering::Relaxed);
+            std::thread::sleep(Duration::from_millis(15 + (x >> 20) % 60));
+        }
+    })));
+}
+
 pub fn run(rep: &mut Report, prop: &'static str, n: u64, threads: usize) {
+    if prop == "C03" {
+        install_stalls(rep.seed);
+        STALL_MODE.store(1, Ordering::SeqCst);
+        rep.assumptions.push("leg B injects stalls of 15-75 ms (probability 1/3) at the verif hook between the migration-map and the cluster-map decision of send_cmd_ctx, for commands that a migrating task has just admitted for local execution".to_string());
+    }
     let next = Arc::new(AtomicU64::new(0));
     let seed = rep.seed ^ 0x4ea1;
     let table = Arc::new(slot_keys());
@@ -717,5 +765,9 @@ pub fn run(rep: &mut Report, prop: &'static str, n: u64, threads: usize) {
             Ok(l) => rep.merge(l),
             Err(_) => rep.inconclusive("real-socket leg: worker thread panicked"),
         }
+    }
+    if prop == "C03" {
+        rep.count("real_stalls_injected", STALLS_INJECTED.load(Ordering::SeqCst));
+        undermoon::common::verif::set_callback(None);
     }
 }
